@@ -166,7 +166,7 @@ class Explorer:
 
     # ------------------------------------------------------------------ truth
     def truth_of(self, t: Term, st: State) -> Optional[bool]:
-        t = T.specialize(T.as_bool(t), st.facts)
+        t = T.specialize(T.as_bool(t), st.facts, boolpos=True)
         tag = t[0]
         if tag == "c":
             return bool(t[1])
